@@ -291,7 +291,7 @@ def mutate_smuggling(rng, s):
     elif cls == "dup-cl":
         ins(b"Content-Length: 3"); ins(rng.choice([b"Content-Length: 3", b"content-length: 4"]))
     elif cls == "nondec-cl":
-        ins(b"Content-Length: " + rng.choice([b"+5", b"-5", b"0x5", b"5,5", b"", b"5 5", b"\xd9\xa5", b"5.0", b"1e1", b" 5", b"\xef\xbc\x95"]))
+        ins(b"Content-Length: " + rng.choice([b"+5", b"-5", b"0x5", b"5,5", b"", b"5 5", b"\xd9\xa5", b"5.0", b"1e1", b" 5", b"\xef\xbc\x95", b"1" * 4301, b"0" * 4400 + b"3", b"0" * 4290 + b"3"]))
     elif cls == "te-notfinal":
         ins(b"Transfer-Encoding: " + rng.choice([b"chunked, gzip", b"gzip", b"chunked,", b"", b"xchunked", b"chunked;q=1", b"\xc4\xb0chunked"]))
     elif cls == "te-twice":
@@ -605,3 +605,48 @@ def systematic_mutants(base: bytes, rng=None, fraction=1.0):
     for i in range(len(lines)):
         out.append(b"\r\n".join(lines[: i + 1] + lines[i:]))
     return out
+
+
+
+def unterminated_streams(lim):
+    """A line that never ends, in every syntactic position, delivered in small reads: the parser must
+    reject once the partial line exceeds its limit (it must not buffer without bound).
+    Yields (stream, position)."""
+    ml, mf, mh, _ = lim
+    big = max(ml, mf)
+    pad = b"z" * (big * 3 + 50)
+    chunked_head = b"POST / HTTP/1.1\r\nHost: x\r\nTransfer-Encoding: chunked\r\n\r\n"
+    return [
+        (b"GET /" + pad, "request-line"),
+        (b"GET / HTTP/1.1\r\nHost: x\r\nX-L: " + pad, "field"),
+        (b"GET / HTTP/1.1\r\nHost: x\r\n" + pad.upper(), "field-name"),
+        (chunked_head + b"0" * len(pad), "chunk-size"),
+        (chunked_head + b"3;" + pad, "chunk-ext"),
+        (chunked_head + b"3\r\nabc\r\n0\r\nX-T: " + pad, "trailer"),
+        (chunked_head + b"0\r\n" + pad, "trailer-name"),
+    ]
+
+
+def non_utf8_streams():
+    """Requests that must be answered with a 400: a byte >= 0x80 (and a control byte) in every position."""
+    bad = b"\xff\xfe"
+    chunked_head = b"POST / HTTP/1.1\r\nHost: x\r\nTransfer-Encoding: chunked\r\n\r\n"
+    return [
+        b"G" + bad + b"T / HTTP/1.1\r\nHost: x\r\n\r\n",
+        b"GET /a\t" + bad + b" HTTP/1.1\r\nHost: x\r\n\r\n",
+        b"GET /a\x00" + bad + b" HTTP/1.1\r\nHost: x\r\n\r\n",
+        b"GET / HTTP/1." + bad + b"\r\nHost: x\r\n\r\n",
+        b"GET http://" + bad + b"[::1 HTTP/1.1\r\nHost: x\r\n\r\n",
+        b"CONNECT " + bad + b":b HTTP/1.1\r\nHost: x\r\n\r\n",
+        b"GET / HTTP/1.1\r\nHost: x\r\nX" + bad + b": v\r\n\r\n",
+        b"GET / HTTP/1.1\r\nHost: x\r\nX: v\x01" + bad + b"\r\n\r\n",
+        b"GET / HTTP/1.1\r\nHost: x\r\nContent-Length: 1" + bad + b"\r\n\r\n",
+        b"GET / HTTP/1.1\r\nHost: x\r\nContent-Length: " + b"1" * 5000 + b"\r\n\r\n",
+        b"GET / HTTP/1.1\r\nHost: x\r\nTransfer-Encoding: " + bad + b"\r\n\r\n",
+        chunked_head + bad + b"zz\r\nabc\r\n0\r\n\r\n",
+        chunked_head + b"3;e\n" + bad + b"\r\nabc\r\n0\r\n\r\n",
+        chunked_head + b"3\r\nabc" + bad + b"\r\n0\r\n\r\n",
+        chunked_head + b"3\r\nabc\r\n0\r\nX" + bad + b": t\r\n\r\n",
+        chunked_head + b"3\r\nabc\r\n0\r\nX: t\x01" + bad + b"\r\n\r\n",
+        chunked_head + b"3\r\nabc\r\n0\r\n" + b"X-T: " + b"t" * 9000 + bad + b"\r\n\r\n",
+    ]
